@@ -197,4 +197,41 @@ example : Fns.TransactionBody_verify_weight .Mainnet .AsTransaction 39977 = none
     ∧ Fns.TransactionBody_verify_weight .Mainnet (.AsLimitedTransaction 100) 77 = none
     ∧ Fns.TransactionBody_verify_weight .Mainnet .NoLimit (2^64 - 1) = some () := by decide
 
+/-! ## `Transaction::weight`, `fee_rate`, `accept_fee` (the abstracted `inputs.len()` / `outputs.len()` of the body
+are inherited as the parameters `inputs_len` / `outputs_len`) -/
+
+/-- `Transaction::weight()` delegates to the body -/
+theorem tx_weight_eq (b : Fns.TransactionBody) (i o : Nat) :
+    Fns.Transaction_weight b i o = GV.Ser.weightByIok i o b.kernels.length := by
+  unfold Fns.Transaction_weight; exact body_weight_eq b.kernels i o
+
+/-- `Transaction::fee_rate() = fee() / weight()` (integer division; the pool model's `Tx.feeRate`) -/
+theorem tx_fee_rate_eq (b : Fns.TransactionBody) (i o : Nat) :
+    Fns.Transaction_fee_rate b i o
+      = Fns.TransactionBody_fee b.kernels / GV.Ser.weightByIok i o b.kernels.length := by
+  unfold Fns.Transaction_fee_rate; rw [tx_weight_eq]; rfl
+
+/-- `fee_rate` panics (division by zero) exactly when the weight is 0 -/
+theorem tx_fee_rate_ok_iff (b : Fns.TransactionBody) (i o : Nat) :
+    Fns.Transaction_fee_rate_ok b i o = (GV.Ser.weightByIok i o b.kernels.length != 0) := by
+  unfold Fns.Transaction_fee_rate_ok; rw [tx_weight_eq]
+
+/-- … i.e. exactly for the empty transaction (no input, no output, no kernel) -/
+theorem weightByIok_eq_zero (i o k : Nat) : GV.Ser.weightByIok i o k = 0 ↔ i = 0 ∧ o = 0 ∧ k = 0 := by
+  have hi : INPUT_WEIGHT = 1 := by decide
+  have ho : OUTPUT_WEIGHT = 21 := by decide
+  have hk : KERNEL_WEIGHT = 3 := by decide
+  simp only [GV.Ser.weightByIok, GV.Ser.satAdd, GV.Ser.satMul, U64MAX, hi, ho, hk]
+  omega
+
+example : Fns.Transaction_fee_rate_ok ⟨[]⟩ 0 0 = false ∧ Fns.Transaction_fee_rate_ok ⟨[⟨.Plain 7⟩]⟩ 1 1 = true := by
+  decide
+
+/-- `Transaction::accept_fee() = weight() * get_accept_fee_base()` (wrapping product) -/
+theorem tx_accept_fee_eq (base : Nat) (b : Fns.TransactionBody) (i o : Nat) :
+    Fns.Transaction_accept_fee base b i o = mulW (GV.Ser.weightByIok i o b.kernels.length) base := by
+  unfold Fns.Transaction_accept_fee; rw [tx_weight_eq]
+
+example : Fns.Transaction_accept_fee 500000 ⟨[⟨.Plain 7⟩]⟩ 2 2 = 23500000 := by decide
+
 end GV.Props.XlateTxFee
